@@ -201,6 +201,7 @@ func checkC02(c *Ctx) {
 	c.rule("C02.R3", "short-circuit: the right operand's evaluation is entailed to happen only when and/or are not decided by the left value; left before right, each at most once", 3)
 	c.rule("C02.R4", "arguments: evaluated in one range loop over the argument slice at the loop index, appended in the same iteration, callee invoked once after the loop", 9)
 	c.rule("C02.R5", "every dereference of a Value alternative / use of a *Value in the evaluator is entailed non-nil by dominating guards; every nil-error return of the evaluator family returns a provably non-nil value", 40)
+	c.rule("C02.R7", "every Enter handler of a labelled alternative of 'expression' and 'value' reports an expression on every path: calls the current expression callback or installs a callback that does", 12)
 	c.rule("C02.R6", "every labelled alternative of grammar rules 'expression' and 'value' has an Enter handler on the tree builder (pass-through: expParens, expValue)", 14)
 
 	g := w.grammar()
@@ -1148,6 +1149,25 @@ func checkHandlers(c *Ctx, rule string) {
 				continue
 			}
 			c.ob(rule, key, "internal/parser/YarnSpinnerParser.g4", declared[mname], map[bool]string{true: "handled by parserListener." + mname, false: "no parserListener." + mname + ": an expression written with this alternative never reaches its callback (the statement is dropped or evaluated with a missing operand)"}[declared[mname]])
+			if declared[mname] && rule == "C02.R6" {
+				h := w.DeclByName(tp, "parserListener."+mname)
+				if h == nil || h.Body == nil {
+					c.undecided("C02.R7", "handler "+mname+" not found as a declaration")
+					continue
+				}
+				c.fn(h)
+				fs := reportsExpression(w, h, 0)
+				if len(fs) == 0 {
+					c.ob("C02.R7", h.Name+"/reports", w.Pos(h.Decl.Pos()), true, "every path calls the current expression callback or installs a callback that does")
+				}
+				for i, fd := range fs {
+					k := h.Name + "/reports"
+					if i > 0 {
+						k += "#" + itoa(i+1)
+					}
+					c.ob("C02.R7", k, w.Pos(fd.pos), false, fd.msg)
+				}
+			}
 		}
 	}
 }
